@@ -483,6 +483,57 @@ def q_dispatch(a):
                                "context, and the traversal continues with exactly (position given, query, the entry's value, that context, "
                                "converter), its result returned unchanged; no continuation only if capturing failed", witness=False))
 
+    # ---- `[ filter ]` on a MAP: after `*` / `[*]` the map itself is filtered as one value; after a key every entry is -------
+    ex, h = _directed(a, QP.index("Filter"), MAP)
+    flt = h["part"]
+    conj = ex.proj_of(flt, "as Filter.1")
+    fname = ex.proj_of(flt, "as Filter.0")
+    mapv = field(ex, payload(ex, h["cur"], "Map"), 1, "MapValue")
+    bad, seen_prev = [], set()
+    for p in ex.paths:
+        r = p.ret
+        prev = [int(m.group(1)) for c_ in p.pc for m in [re.match(r"^\(= \|disc!\d+\| (\d+)\)$", c_)] if m]
+        if p.outcome == "panic":
+            # `_ => unreachable!()`: only for a filter that follows neither a key nor `*` / `[*]` (the parser never builds that)
+            if prev:
+                bad.append(f"(and {pc_term(p.pc)} {in_range(ex, h)})")
+            continue
+        if r is None or not prev:
+            bad.append(f"(and {pc_term(p.pc)} {in_range(ex, h)})")
+            continue
+        pk = QP[prev[-1]] if prev[-1] < len(QP) else "?"
+        seen_prev.add(pk)
+        cd, cl, am = calls(p, "check_and_delegate"), calls(p, "call"), calls(p, "accumulate_map")
+        if pk in ("AllValues", "AllIndices"):
+            ok = (len(cd) == 1 and len(cl) == 1 and not am and same(cd[0][2][0], conj) and cd[0][2][1][0] == "enum" and cd[0][2][1][2] == "0"
+                  and same(cl[0][2][0], cd[0][3]) and cl[0][2][1][0] == "tuple" and len(cl[0][2][1][1]) == 6 and r == cl[0][3])
+            if ok:
+                t = cl[0][2][1][1]
+                ok = (t[0][0] == "int" and same(t[1], h["query"]) and same(t[2], h["cur"]) and same(t[3], h["cur"])
+                      and same(t[4], ex.arg_env["_4"]) and same(t[5], ex.arg_env["_5"]))
+                cond = f"(= {t[0][1]} (+ {h['qi'][1]} 1))" if ok else "false"
+            else:
+                cond = "false"
+            bad.append(f"(and {pc_term(p.pc)} {in_range(ex, h)} (not {cond}))")
+        elif pk == "Key":
+            ie = calls(p, "is_empty")
+            empty = ie[0][3][1] if ie and ie[0][3][0] == "bool" and same(ie[0][2][0], mapv) else None
+            if am:
+                ok = (empty is not None and len(am) == 1 and len(cd) == 1 and not cl and same(cd[0][2][0], conj) and same(cd[0][2][1], fname)
+                      and accmap_ok(ex, h, am[0]) and same(am[0][2][6], cd[0][3]) and r == am[0][3])
+                cond = f"(and (not {empty}) (= {am[0][2][2][1]} {h['qi'][1]}))" if ok else "false"
+            else:
+                ok = empty is not None and not cd and not cl and r[0] == "enum" and r[2] == "0"
+                cond = empty if ok else "false"
+            bad.append(f"(and {pc_term(p.pc)} {in_range(ex, h)} (not {cond}))")
+        else:
+            bad.append(f"(and {pc_term(p.pc)} {in_range(ex, h)})")
+    finish("filter/map", ex, bad,
+           f"`[ filter ]` on a map (previous part kinds seen: {sorted(seen_prev)}): after `*` / `[*]` the filter function built from THIS filter's "
+           "clauses (no capture name) is applied once at the next position with the map as both the value and the filter subject; after a "
+           "key, a non-empty map's entries are handed to accumulate_map at the current position with the filter function built from this "
+           "filter's clauses and its capture name; an empty map selects nothing")
+
 
 def q_accumulate_map(a):
     MV = struct_fields(a.src, "rules/path_value.rs", "MapValue")
@@ -636,7 +687,8 @@ def replay_queries(a):
              ("M[ v[ this == 9 ] == 1 ].v == 1", "SKIP"), ("N[*][*] >= 1", "PASS"), ("N[0][1] == 2", "PASS"),
              ("N[1][1] !exists", "PASS"), ("s[*] == 5", "PASS"), ("s.x !exists", "PASS"), ("this.s == 5", "PASS"), ("L.*.x >= 1", "PASS"),
              ("M[*].a.v == 1", "PASS"), ("M[*].b.v == 2", "PASS"), ("M[*].a.v == 2", "FAIL"), ("M[*].c !exists", "PASS"), ("some M.*.v == 2", "PASS"),
-             ("M.*.v == 2", "FAIL"), ("M.* !empty", "PASS")]
+             ("M.*.v == 2", "FAIL"), ("M.* !empty", "PASS"),
+             ("M.*[ v == 2 ].v == 2", "PASS"), ("M.*[ v == 1 ].v == 2", "FAIL"), ("M.*[ v == 9 ].v == 2", "SKIP"), ("M.*[ v >= 1 ].v >= 1", "PASS")]
     return a.replay_cases(exe, data, cases)
 
 
